@@ -60,7 +60,11 @@ type cblPlan struct {
 	// Access, per phase: after the phase, with the system at rest, the first client's user gets these channels
 	// instead of the ones it had (nil = no change)
 	Access [][]string `json:"access,omitempty"`
-	Seed   uint64     `json:"seed"`
+	// RoleSteps, per phase: after the phase (and after the channel change, if any), with the system at rest, one step
+	// that changes what the first client's user gets through role r1: "grant" / "revoke" the role, or "chans:A,C" sets
+	// the role's channels ("" = no step)
+	RoleSteps []string `json:"role_steps,omitempty"`
+	Seed      uint64   `json:"seed"`
 }
 
 const cblDocs = 3
@@ -135,6 +139,20 @@ func cblGenerate(seed uint64, tier string, index int) json.RawMessage {
 			acc = []string{"A"}
 		}
 		p.Access = append(p.Access, acc)
+		step := ""
+		switch r.Intn(8) {
+		case 0, 1:
+			step = "grant"
+		case 2:
+			step = "revoke"
+		case 3:
+			step = "chans:C"
+		case 4:
+			step = "chans:"
+		case 5:
+			step = "chans:B,C"
+		}
+		p.RoleSteps = append(p.RoleSteps, step)
 	}
 	if index%2 == 1 {
 		p.Cfg.MaxFaults = r.Range(1, 2)
@@ -536,6 +554,10 @@ func cblRun(env *verifsim.Env, raw json.RawMessage, judgeProp string, restReads 
 		return infraOrBudget(err)
 	}
 	if cerr := s.Call("setup", func() {
+		if code, body := n.adminReq("PUT", "/db/_role/r1", `{"admin_channels":["C"]}`); code >= 300 {
+			setupErr = fmt.Sprintf("creating role: %d %s", code, body)
+			return
+		}
 		for _, cc := range p.Clients {
 			chs, _ := json.Marshal(cc.Chans)
 			if code, body := n.adminReq("PUT", "/db/_user/"+cc.User, fmt.Sprintf(`{"password":"letmein-1","admin_channels":%s}`, chs)); code >= 300 {
@@ -556,6 +578,11 @@ func cblRun(env *verifsim.Env, raw json.RawMessage, judgeProp string, restReads 
 			c.ever[ch] = true
 		}
 		clients = append(clients, c)
+	}
+	// what the first client's user is granted: admin channels, role r1 (held or not) and the role's channels
+	adminChans, hasRole, roleChans := map[string]bool{}, false, map[string]bool{"C": true}
+	for _, ch := range p.Clients[0].Chans {
+		adminChans[ch] = true
 	}
 	for i, c := range clients {
 		c := c
@@ -829,7 +856,7 @@ func cblRun(env *verifsim.Env, raw json.RawMessage, judgeProp string, restReads 
 				return v
 			}
 			if restReads {
-				v, err := c02rAtRest(s, n, clients, reg, fmt.Sprintf("at rest after phase %d", pi), pi*2)
+				v, err := c02rAtRest(s, n, clients, reg, fmt.Sprintf("at rest after phase %d", pi), pi*4)
 				if err != nil {
 					return budget(err, "REST reads")
 				}
@@ -838,41 +865,97 @@ func cblRun(env *verifsim.Env, raw json.RawMessage, judgeProp string, restReads 
 				}
 			}
 		}
+		// access steps of this phase: the user's admin channels, then what it gets through role r1
+		type accessStep struct {
+			what string
+			do   func() (int, []byte)
+		}
+		var steps []accessStep
+		c0 := clients[0]
+		putUser := func() (int, []byte) {
+			var chs, roles []string
+			for ch := range adminChans {
+				chs = append(chs, ch)
+			}
+			sort.Strings(chs)
+			roles = []string{}
+			if hasRole {
+				roles = []string{"r1"}
+			}
+			if chs == nil {
+				chs = []string{}
+			}
+			return n.adminReq("PUT", "/db/_user/"+c0.cfg.User, string(mustJSON(map[string]any{"admin_channels": chs, "admin_roles": roles})))
+		}
 		if atRest && pi < len(p.Access) && p.Access[pi] != nil {
-			// the first client's user gets other channels; from here on what it may see is judged against them
-			c := clients[0]
-			chs, _ := json.Marshal(p.Access[pi])
+			acc := p.Access[pi]
+			steps = append(steps, accessStep{"the user's channels", func() (int, []byte) {
+				adminChans = map[string]bool{}
+				for _, ch := range acc {
+					adminChans[ch] = true
+				}
+				return putUser()
+			}})
+		}
+		if atRest && pi < len(p.RoleSteps) && p.RoleSteps[pi] != "" {
+			st := p.RoleSteps[pi]
+			switch {
+			case st == "grant" || st == "revoke":
+				steps = append(steps, accessStep{"the user's role (" + st + ")", func() (int, []byte) {
+					hasRole = st == "grant"
+					return putUser()
+				}})
+			case strings.HasPrefix(st, "chans:"):
+				steps = append(steps, accessStep{"the channels of the user's role", func() (int, []byte) {
+					roleChans = map[string]bool{}
+					list := []string{}
+					for _, ch := range strings.Split(strings.TrimPrefix(st, "chans:"), ",") {
+						if ch != "" {
+							roleChans[ch] = true
+							list = append(list, ch)
+						}
+					}
+					return n.adminReq("PUT", "/db/_role/r1", string(mustJSON(map[string]any{"admin_channels": list})))
+				}})
+			}
+		}
+		for si, step := range steps {
 			var code int
 			var body []byte
-			if cerr := s.Call(fmt.Sprintf("access%d", pi), func() {
-				code, body = n.adminReq("PUT", "/db/_user/"+c.cfg.User, fmt.Sprintf(`{"admin_channels":%s}`, chs))
-			}); cerr != nil {
-				return budget(cerr, "changing the user's channels")
+			if cerr := s.Call(fmt.Sprintf("access%d.%d", pi, si), func() { code, body = step.do() }); cerr != nil {
+				return budget(cerr, "changing "+step.what)
 			}
 			if code >= 300 {
-				panic(fmt.Sprintf("changing the user's channels: %d %s", code, body))
+				panic(fmt.Sprintf("changing %s: %d %s", step.what, code, body))
 			}
-			c.mu.Lock()
-			c.chans = map[string]bool{"!": true}
-			for _, ch := range p.Access[pi] {
-				c.chans[ch] = true
-				c.ever[ch] = true
+			c0.mu.Lock()
+			c0.chans = map[string]bool{"!": true}
+			for ch := range adminChans {
+				c0.chans[ch] = true
+				c0.ever[ch] = true
 			}
-			c.mu.Unlock()
+			if hasRole {
+				for ch := range roleChans {
+					c0.chans[ch] = true
+					c0.ever[ch] = true
+				}
+			}
+			c0.mu.Unlock()
 			s.Probe("access of a connected user changed")
-			atRest, v := comeToRest(fmt.Sprintf("after the access change that follows phase %d", pi))
+			where := fmt.Sprintf("after the change of %s that follows phase %d", step.what, pi)
+			atRest2, v := comeToRest(where)
 			if v != nil {
 				return v
 			}
 			if v := first(); v != nil {
 				return v
 			}
-			if atRest {
-				if v := probe(fmt.Sprintf("after the access change that follows phase %d", pi)); v != nil {
+			if atRest2 {
+				if v := probe(where); v != nil {
 					return v
 				}
 				if restReads {
-					v, err := c02rAtRest(s, n, clients, reg, fmt.Sprintf("at rest after the access change that follows phase %d", pi), pi*2+1)
+					v, err := c02rAtRest(s, n, clients, reg, "at rest "+where, pi*4+1+si)
 					if err != nil {
 						return budget(err, "REST reads")
 					}
